@@ -22,7 +22,7 @@ import time
 from registry_common import COMMON_ASSUME
 
 ALLOWED = {"propext", "Classical.choice", "Quot.sound"}
-TEMPLATE_VERSION = "3"
+TEMPLATE_VERSION = "4"
 JOBS = 16
 
 
@@ -103,7 +103,7 @@ def extra_obligations(ctx):
             src = (
                 "import PlumVerif.Model.Scaling\nopen PlumVerif.Scaling\n"
                 f"namespace PlumVerif.{ns}\nset_option maxHeartbeats 4000000 in\n"
-                f"theorem c{h} : ∀ l < 256, okRaw {_conv_lit(c)} (256 * {h} + l) = true := by decide +kernel\n"
+                f"theorem c{h} : ∀ l < 256, okStep {_conv_lit(c)} {256 ** c[5] - 1} (256 * {h} + l) = true := by decide +kernel\n"
                 f"end PlumVerif.{ns}\n"
             )
             path = os.path.join(moddir, f"C{h}.lean")
@@ -150,7 +150,8 @@ def extra_obligations(ctx):
     for d in others[3:]:
         shutil.rmtree(os.path.join(base, d), ignore_errors=True)
     # ---------------------------------------------------------------- assembly
-    names = ["PlumVerif.C17.combos_all", "PlumVerif.C17.inverse", "PlumVerif.C17.accept_refuse"]
+    names = ["PlumVerif.C17.combos_all", "PlumVerif.C17.inverse", "PlumVerif.C17.accept_refuse",
+             "PlumVerif.C17.display_injective", "PlumVerif.C17.display_monotone"]
     res["obligations"] += len(names)
     if pb.returncode != 0:
         res["ok"] = False
@@ -168,24 +169,24 @@ def extra_obligations(ctx):
     src += ["namespace PlumVerif.C17", "open PlumVerif PlumVerif.Scaling PlumVerif.ParamSet", ""]
     for j, c in enumerate(combos):
         if c[5] == 1:
-            src += [f"theorem combo{j}_all : ∀ raw : Nat, raw < 256 ^ {_combo_lit(c)}.size → okRaw (Combo.conv {_combo_lit(c)}) raw = true :=",
+            src += [f"theorem combo{j}_all : ∀ raw : Nat, raw < 256 ^ {_combo_lit(c)}.size → okStep (Combo.conv {_combo_lit(c)}) (256 ^ {_combo_lit(c)}.size - 1) raw = true :=",
                     f"  fun raw h => combos_1byte {_combo_lit(c)} (by decide) rfl raw (by simpa using h)", ""]
             continue
         key, ns, root = roots[tuple(c)]
         n = 256 ** (c[5] - 1)
         src += [f"theorem combo{j}_conv : Combo.conv {_combo_lit(c)} = {_conv_lit(c)} := rfl",
-                f"theorem combo{j}_upto_0 : ∀ raw : Nat, raw < 256 * 0 → okRaw {_conv_lit(c)} raw = true :=",
+                f"theorem combo{j}_upto_0 : ∀ raw : Nat, raw < 256 * 0 → okStep {_conv_lit(c)} {256 ** c[5] - 1} raw = true :=",
                 "  fun raw h => absurd h (by omega)"]
         for h in range(n):
-            src += [f"theorem combo{j}_upto_{h+1} : ∀ raw : Nat, raw < 256 * {h+1} → okRaw {_conv_lit(c)} raw = true := fun raw hr =>",
+            src += [f"theorem combo{j}_upto_{h+1} : ∀ raw : Nat, raw < 256 * {h+1} → okStep {_conv_lit(c)} {256 ** c[5] - 1} raw = true := fun raw hr =>",
                     f"  if hlt : raw < 256 * {h} then combo{j}_upto_{h} raw hlt else by",
                     f"    have := PlumVerif.{ns}.c{h} (raw - 256 * {h}) (by omega)",
                     f"    rwa [show 256 * {h} + (raw - 256 * {h}) = raw by omega] at this"]
-        src += [f"theorem combo{j}_all : ∀ raw : Nat, raw < 256 ^ {_combo_lit(c)}.size → okRaw (Combo.conv {_combo_lit(c)}) raw = true := by",
+        src += [f"theorem combo{j}_all : ∀ raw : Nat, raw < 256 ^ {_combo_lit(c)}.size → okStep (Combo.conv {_combo_lit(c)}) (256 ^ {_combo_lit(c)}.size - 1) raw = true := by",
                 f"  intro raw h; rw [combo{j}_conv]; exact combo{j}_upto_{n} raw (by simpa using h)", ""]
     lits = ", ".join(_combo_lit(c) for c in combos)
     src += ["/-- every emitted combination passes on every raw value of its width -/",
-            "theorem combos_all : ∀ c ∈ Gen.combos, ∀ raw : Nat, raw < 256 ^ c.size → okRaw (Combo.conv c) raw = true := by",
+            "theorem combos_all : ∀ c ∈ Gen.combos, ∀ raw : Nat, raw < 256 ^ c.size → okStep (Combo.conv c) (256 ^ c.size - 1) raw = true := by",
             "  intro c hc",
             f"  have hl : Gen.combos = [{lits}] := rfl",
             "  rw [hl] at hc",
@@ -204,6 +205,16 @@ def extra_obligations(ctx):
             "    ParamSet.decide (convOf kd.1 kd.2) t (display (convOf kd.1 kd.2) raw) =",
             "      if t.min ≤ raw ∧ (raw : Int) ≤ t.max then .transmit raw else .reject :=",
             "  accept_refuse_of_combos combos_all",
+            "",
+            "/-- two raw values of a scaled row with the same displayed value are the same raw value -/",
+            "theorem display_injective : ∀ kd ∈ allRows, isScaled kd.1 kd.2 = true → ∀ a b : Nat, a < 256 ^ kd.2.size → b < 256 ^ kd.2.size →",
+            "    display (convOf kd.1 kd.2) a = display (convOf kd.1 kd.2) b → a = b :=",
+            "  display_injective_of_combos combos_all",
+            "",
+            "/-- the displayed value of a scaled row never decreases as the raw value grows (exact rationals) -/",
+            "theorem display_monotone : ∀ kd ∈ allRows, isScaled kd.1 kd.2 = true → ∀ a b : Nat, a ≤ b → b < 256 ^ kd.2.size →",
+            "    F64.Q.le (shownQ (convOf kd.1 kd.2) a) (shownQ (convOf kd.1 kd.2) b) = true :=",
+            "  display_monotone_of_combos combos_all",
             "end PlumVerif.C17"]
     src += [f"#print axioms {n}" for n in names]
     text = "\n".join(src) + "\n"
@@ -274,7 +285,7 @@ ENTRY = dict(
     level_text=(
         "Proof: `C17.inverse` (assembled from `inverse_of_combos`, `combos_1byte` and the generated chunk theorems) shows for EVERY "
         "scaled row of the ecoMAX P/I, mixer P/I, thermostat tables and the thermostat profile and EVERY raw value 0..256^size-1 that "
-        "toRaw(display(raw)) = raw in the exact binary64 model; `C17.accept_refuse` that the displayed form of a raw value is accepted "
+        "toRaw(display(raw)) = raw in the exact binary64 model; `C17.display_injective` / `C17.display_monotone` that the displayed value is an injective, never decreasing (hence strictly increasing) function of the raw value; `C17.accept_refuse` that the displayed form of a raw value is accepted "
         "(transmitting that raw value) iff it lies within the reported bounds; `inverse_plain`/`inverse_switch` cover unscaled numbers "
         "and switches. The tables are re-extracted from the source on every run (`row_uses_listed_combo`, `attrs_match`). The float "
         "model and the hand-modelled operation order are validated on the same finite domain: every combination x every raw value, "
